@@ -346,6 +346,9 @@ def r19_8(ctx):
 
 
 def run(ctx):
+    ctx.rule("R19.10", "the tokenizer's feed() hands the indicator on: it answers what run() answered on every path (R03.17), whatever is left in the queue")
+    from . import tokrules as _tr10
+    ctx.guard("R19.10", "feed", lambda: _tr10.feed_facts(ctx, "R19.10", "html"))
     ctx.rule("R19.9", "\"charset\" is found by its seven bytes alone; http-equiv is compared with content-type as it is")
     ctx.guard("R19.9", "charset-search", lambda: r19_9(ctx))
     ctx.rule("R19.8", "Tag::get_attribute finds an attribute by name only: an empty charset / content / http-equiv value is still that attribute")
